@@ -177,9 +177,10 @@ Definition prune_dirs_gen (once : bool) (dirs : list str) (f : fsys) : fsys * li
 
 Definition prune_dirs := prune_dirs_gen prune_visits_once.
 
-(* a tree as a file system has it: whatever exists lies in a directory that exists (snapshots of real trees do) *)
+(* a tree as a file system has it: whatever exists either has no directory part or lies in a directory that exists
+   (snapshots of real trees with normalised relative paths do) *)
 Definition fs_closedb (f : fsys) : bool :=
-  forallb (fun e => negb (parent_ok (dirname (fst e))) ||
+  forallb (fun e => str_eqb (dirname (fst e)) [] ||
                     match fs_get f (dirname (fst e)) with Some FDir => true | _ => false end) f.
 
 Record rdf_out := mkRdf {
